@@ -1168,6 +1168,8 @@ class Interp:
                 return neg(v)
             return not self.truth(st, v)
         v = st.force(v)
+        if v is None:
+            raise PyRaise(SExc(TypeError, ("bad operand type for unary op: 'NoneType'",)))  # as CPython: -None / +None / ~None
         if isinstance(e.op, ast.USub):
             return -v
         if isinstance(e.op, ast.UAdd):
@@ -1545,6 +1547,11 @@ class Interp:
             if not (isinstance(n1, int) and n1 == 1):
                 r0, _m = st._check(V._z(n1) != 1, st.cfg.branch_timeout_ms)
                 if r0 != z3.unsat:
+                    if isinstance(container, (str, bytes)):
+                        # a needle of any length in a CONSTANT haystack: one of its finitely many substrings
+                        from .textops import in_const
+
+                        return in_const(needle, container)
                     raise Unsupported("substring test with a needle whose length is not known to be 1")
             e = needle.get(0)
             if isinstance(hay.length, int):
